@@ -22,3 +22,78 @@ _P["level_text"] += (
     "Not proved: that distance mode inverts arc mode (reverted series + Newton step: correspondence and oracle only), the longitude and area formulas "
     "(correspondence and oracle only).")
 _P["technique"] = "Lean 4 table certificates, exact-real theorems about an executable model of the series solver, model correspondence with a computed running-error tolerance, quadrature-oracle correspondence"
+
+# ---- deepening round G01: every documented route, the whole documented flattening range, the exact line as a Lean model --------------
+_P["rule"] = (
+    "f = WGS84 (1/3 of the cases); series range {0, ±1e-3, ±1/150, ±0.01, ±1/64, ±0.02}; series with documented degradation {±0.05, ±0.1, ±0.2}; "
+    "exact-only {0.5, −1, 0.75, −3}; strongly eccentric b/a ∈ {1/8, 1/16, 0.05, 0.04, 1/32, 0.02, 1/64, 0.01, 8, 16, 20, 25, 32, 50, 64, 100} "
+    "(the documented range of GeodesicExact is b/a ∈ [0.01, 100]); lat1 ∈ {±90, ±(90−1e-10), ±0, ±1e-10, 45, uniform}; azi1 ∈ {0, ±90, ±180, "
+    "±1e-10, 180−1e-10, 90±1e-10, uniform}, shifted by 360k (|k| ≤ 3) in 1/8 of the cases; equatorial lines (lat1 = ±0, azi1 = ±90); lon1 uniform "
+    "in [−180, 180] (1/2), in [−1080, 1080] (1/3) or from {±180, 0, 359, −540, 720, 270, 181, −300.125, 3600.5, 359.75, −725.25}; lengths as "
+    "distance and as arc: 0, ±1e-9, special values, up to ±10 circuits, within half a circuit, and σ12 at k·180° + {0, ±1e-9, ±1e-6, 1e-3} (in "
+    "distance mode: the distance that GeodesicExact returns for such an arc, and its neighbours). Every case is solved by Geodesic, "
+    "GeodesicExact and Geodesic(a,f,true) through GenDirect(ALL) and (ALL|LONG_UNROLL), Line / the line constructor / GenDirectLine / "
+    "DirectLine resp. ArcDirectLine + GenPosition with and without LONG_UNROLL, the third point of GenDirectLine (GenDistance, Arc, Distance), GenSetDistance on an existing line with either member of the pair, the Latitude/Longitude/Azimuth getters of every line form (the longitude as given), "
+    "the other member of the distance/arc pair (Direct on the s12 returned by ArcDirect and vice versa), InverseLine through the end point "
+    "(b/a ∈ [1/4, 4], |a12| ≤ 175°); every fourth case in addition through all 6 Direct / 7 ArcDirect overloads, the 6 Position / 7 ArcPosition "
+    "overloads of Line and DirectLine/ArcDirectLine, GenDirect and GenPosition with each single-output mask, and lines constructed with a single "
+    "capability; every fourth case through tools/GeodSolve run in-process (−f −p 10, with −a, −E, −u, −L, −D). Separate streams: "
+    "E(Einv(x)) and deltaEinv on k² ∈ {0, 0.9999, −9999, 0.99, −99, 0.5, −1, ±1e-3, 0.999999, −1e6} ∪ −10^[−3, 4.2] ∪ 1 − 10^[−4.2, 0], x at "
+    "multiples of E(k) ± tiny, within a quarter period and up to 40 E(k); the model correspondences (series: geodconst, lineinit, genpos for "
+    "|f| ≤ 0.2; exact line: xgeodconst, xlineinit, xgenpos for every f, arc and distance mode, with and without LONG_UNROLL). "
+    "non-trivial = finite result compared with the oracle; distinct = distinct (op, leading argument bits)")
+_P["tolerances"] = {
+    "series vs oracle": "4 × {15 nm (|f| ≤ 1/250), 26 nm (≤ 1/100), 31 nm (≤ 1/50), 10 µm (≤ 0.05), 1.5 mm (≤ 0.1), 300 mm (≤ 0.2)} (Geodesic.hpp / GeodesicLine.cpp tables) × size × max(1, |σ12|/180°)",
+    "exact vs oracle": "4 × the table of GeodesicExact.hpp (b/a: 1/2 36 nm (40 nm used), 1/4 69, 1/8 115, 1/16 210, 1/32 269, 1/64 345, 1/128 387; 2 25 (40 used), 4 96, 8 318, 16 985, 32 2352, 64 6008, 128 19024 nm; a b/a between two rows takes the more eccentric row; × 2 beyond b/a ∈ [1/2, 2] because the rows are 'approximate maxima') × size × max(1, |σ12|/180°)",
+    "size": "max(a / a_WGS84, quarter meridian / 10000 km) — the series table is written for a = a_WGS84, the exact table for a quarter meridian of 10000 km",
+    "how errors are measured": "position: 3-D chord between the points of the ellipsoid; azimuth: angle between the 3-D unit tangents × a ≤ (tol + 4e-16 a) × max(b/a, a/b); s12 for a given arc: metres; a12 for a given distance: |Δa12| × (b·dn(σ2) metres per radian of arc at the end point); unrolled longitude: |Δ(lon2 − lon1)| × a cos β2 ≤ tol + 1e-15 |lon1| a (not judged where the start or end point is within 1e-5° of a pole; modulo 360° on meridians)",
+    "routes vs GenDirect(ALL) of the same solver": "the same tolerance (on the unchanged tree the routes are bit-identical); distance/arc pair: 2 × tol; InverseLine: 3 × tol(180°)",
+    "delegation (exact = true) and GeodesicLine(Exact)::GenPosition vs GenDirect": "bit-for-bit",
+    "ranges": "exact: decided in Lean for GenDirect of the series and exact solver, by comparison in the harness for every other route",
+    "E(Einv(x)) = x, Einv(x) in the period of πx/(2E)": "|E(Einv x) − x| ≤ 64 ε (|x| + E(k)) (decided in Lean); the integral of √(1 − k² sin²) up to Einv(x) by graded Gauss–Legendre panels within the same bound; deltaEinv(sin τ, cos τ) = σ − τ within 64 ε (1 + |σ| + |deltaE|) max(1, E0/dn)",
+    "GeodSolve": "every printed field within half a unit of its last printed digit (+ 2 ulp) of the value the library call returns",
+    "model correspondence (geodconst, lineinit, genpos; xgeodconst, xlineinit, xgenpos)": _P["tolerances"]["model correspondence (geodconst, lineinit, genpos)"] + "; exact line: the EllipticFunction kernels are evaluated by the harness on an object it constructs itself with the documented parameters (−k², −e′², 1 + k², 1 + e′²) at the documented arguments, and enter the running-error evaluation with the bound 2·Lip·(argument errors) + u|v|, Lip a bound of the kernel's derivative along the auxiliary sphere (deltaE: 1 + dn/E0, deltaD: 1 + 1/(dn D0), deltaH: 1 + max(1, f1²)/(dn H0), deltaEinv: 1 + E0/min(1, √kp2)); the model's arguments are compared with the harness's; S12 is compared when the DST has at most 400 coefficients",
+}
+_P["level_text"] += (
+    " Deepening: (i) the elliptic-integral line is a Lean model too (Model/GeodLineExact.lean, kernel-parametric and polymorphic): the GeodesicExact "
+    "constructor constants, GeodesicLineExact::LineInit and GenPosition (arc and distance mode through deltaEinv, the degenerate end point, unrolled and "
+    "reduced longitude, m12/M12/M21, DST::integral, both alp12 formulas) around abstract kernels for the EllipticFunction member calls (E(), D(), H(), "
+    "deltaE, deltaD, deltaH, deltaEinv) and the DST coefficients; Delta and atan2d are modelled. It is executed in the running-error arithmetic against "
+    "the private members and outputs of the implementation on every generated case, for every flattening incl. b/a = 0.01 and 100. Theorems for every "
+    "kernel (ℝ): xlineinit_sig1_norm, xlineinit_alp0_norm, xlineinit_tau1 ((stau1, ctau1) = (sin, cos)(σ1 + E1)), xgenpos_sig2_norm, xclairaut, "
+    "xgenpos_bet2_norm, xgenpos_arc_s12 (s12 = b E0 (τ(σ1 + σ12) − τ(σ1)), τ(σ) = σ + deltaE(σ)), xgenpos_arc_circuit (a12 + 360: same latitude and "
+    "azimuth, s12 grows by 2π b E0, the unrolled longitude by exactly 360·(E − (e²/f1) sin α0 H0), the reduced χ12 is unchanged), "
+    "xgenpos_zero_arc, xgenpos_lon1_translation; and under the explicitly stated kernel contract EinvInvertsE (deltaEinv(sin τ(σ), cos τ(σ)) = σ − τ(σ)): "
+    "xgenpos_distance_inverts_arc — GenPosition(distance = the s12 that arc mode returns) returns the identical record (same σ12 with its whole "
+    "number of circuits, latitude, longitudes, azimuth, m12, M12, M21, S12). The contract itself is checked on the implementation (ops einv, deltaeinv). "
+    "(ii) LONG_UNROLL of the series line: genpos_lon1_translation (lon1 enters only as the term added at the end: lon2 = lon1 + λ12 with the "
+    "un-normalised lon1; every other output is independent of it), genpos_arc_circuit_lon (a12 + 360 moves the unrolled lon2 by exactly "
+    "360·(E + A3c), the reduced difference by 360·A3c), genpos_zero_arc, and genpos_unroll_within_half_turn / xgenpos_unroll_within_half_turn: the "
+    "unrolled spherical longitude as coded differs from E·σ12 by less than π for every σ12 of any number of circuits (the two wrapped atan2 "
+    "differences cancel each other's jumps: ω12 = E(σ12 + δ(σ2) − δ(σ1)) with |δ| < π/2, lemma atan2_scale_bound over Complex.arg) — so the "
+    "unrolled value is the continuous branch and lon2 − lon1 counts the number and sense of circuits; (iii) atan2d_range, direct_ranges, xdirect_ranges: "
+    "the modelled Math::atan2d returns an angle in [−180, 180] (in [−90, 90] for a non-negative second argument), hence azi2 ∈ [−180, 180] and "
+    "lat2 ∈ [−90, 90] for both line models (ℝ; the normalisation of the reduced lon2 is C16's AngNormalize theorem). Not proved: the kernel contract for the real "
+    "EllipticFunction (closure oracle only); the ellipsoidal correction term of the longitude (I3 / H: series certificates resp. kernel); accuracy figures.")
+_P["level_note"] += "; oracle integrals on Gauss–Legendre panels graded towards the branch points of √(1 + k² sin²σ) (validated against the uniformly refined oracle to 1e-17 relative)"
+_P["technique"] = ("Lean 4 table certificates, exact-real theorems about executable models of the series solver and of the elliptic-integral line "
+                   "(kernel-parametric), model correspondence with a computed running-error tolerance, quadrature-oracle correspondence over every documented route")
+_P["assumptions"] = _P["assumptions"] + [
+    "the EllipticFunction kernels are taken from the implementation (C15 checks them against their defining integrals); the closure E(Einv(x)) = x and the root selection are checked here",
+    "the first-order Lipschitz bounds attached to kernel values in the running-error evaluation are estimates, not theorems",
+]
+
+# the harness compiles $GV_REPO/tools/GeodSolve.cpp into itself (harness/C01_tool.hpp): include path of the usage stub, and a cache key
+# that depends on the tool's text (the generic key covers only the library and the harness sources)
+import hashlib as _hl, os as _os
+def _tools_digest():
+    h = _hl.sha256()
+    p = _os.path.join(_os.environ.get("GV_REPO", "/repo"), "tools", "GeodSolve.cpp")
+    try:
+        h.update(open(p, "rb").read())
+    except OSError:
+        h.update(b"missing")
+    return h.hexdigest()[:16]
+_verif = _os.path.dirname(_os.path.dirname(_os.path.dirname(_os.path.abspath(__file__))))
+_P["harnesses"] = [dict(name="C01", procs_quick=4, procs_thorough=16,
+                        extra=["-I" + _os.path.join(_verif, "harness", "C01_tools"), "-DGV_TOOLS_DIGEST=0x" + _tools_digest()])]
